@@ -37,6 +37,9 @@ def same_elem(kind, ty, got, want):
     return got == want
 
 
+WORDS = ['ab', 'cde', 'x', 'hello']
+
+
 def agree(case, impl, model):
     head = case.split(" ")[0].split("@")[0]
     if head == "lit":
@@ -111,6 +114,15 @@ def gen_rounds(seed, tier, run):
             vals = [rng.choice([0.4, 1.6, -0.6, 3.75, 10.49, 0.125, -7.3, 100.501, 2.0, 1e-3, 123456.789]) for _ in range(n)]
             fs = [format(v, f".{prec}f") for v in vals]
             out3.append(f"display@f64 {sarr(sh, fs)} {opt(prec)} z{alt} {sarr(sh, [repr(v) for v in vals])}")
+        # pairs, triples and lists as elements, with and without a precision (seeded change C18k: the pair's Display
+        # went through Formatter::pad, which cuts the text to the precision)
+        if len(sh) <= 3:
+            for prec, alt in itertools.product((None, 0, 2, 5), (0, 1)):
+                r = lambda: rng.randint(-99, 99)
+                out3.append(f"display@t2 {sarr(sh, [f'({r()}, {r()})' for _ in range(n)])} {opt(prec)} z{alt}")
+                out3.append(f"display@t3 {sarr(sh, [f'({r()}, {r()}, {r()})' for _ in range(n)])} {opt(prec)} z{alt}")
+                out3.append(f"display@t2s {sarr(sh, [f'({rng.choice(WORDS)}, {r()})' for _ in range(n)])} {opt(prec)} z{alt}")
+                out3.append(f"display@list {sarr(sh, ['[' + ', '.join(str(r()) for _ in range(rng.randint(1, 3))) + ']' for _ in range(n)])} {opt(prec)} z{alt}")
         out3.append(f"display@str {sarr(sh, [rng.choice(['ab', 'c d', 'x', '']) for _ in range(n)])} n z{rng.randint(0, 1)}")
         out3.append(f"display@bool {sarr(sh, [rng.choice(['true', 'false']) for _ in range(n)])} n z{rng.randint(0, 1)}")
     # compound element types through array_single!: members with separators, brackets, quotes, blanks
